@@ -401,7 +401,10 @@ namespace awkward {
       }
 
       Index64 offsets = compact_offsets64(start_at_zero);
-      ContentPtr content = content_.get()->getitem_range_nowrap(offsets0, content_.get()->length());
+      // lists of length zero may sit beyond the end of the content
+      int64_t lencontent = content_.get()->length();
+      ContentPtr content = content_.get()->getitem_range_nowrap(
+        offsets0 < lencontent ? offsets0 : lencontent, lencontent);
       return std::make_shared<ListOffsetArrayOf<int64_t>>(identities_,
                                                           parameters_,
                                                           offsets,
